@@ -452,6 +452,14 @@ pub fn emit_case(rng: &mut Rng, bytes0: &[u8], out: &mut Vec<String>, native_fri
                 && !collides(page, len, CODE & !0xfff, 0x1000)
                 && !collides(page, len, STACK, stack_len);
             if ok {
+                // the emulator's unit of mapping is the area: an access may not run from one area into the next, while two
+                // adjacent native mappings are one contiguous range. A data area touching the stack or code page would
+                // make the comparison about that difference, which C08 sanctions ("runs past the end of its area"):
+                // such layouts are compared between implementation and model only
+                let cp = CODE & !0xfff;
+                if page + len == STACK || page == STACK + stack_len || page + len == cp || page == cp + 0x1000 {
+                    out.push("nonative".into());
+                }
                 out.push(format!("areaz {:x} {:x} {:x} data", page, len, rng.next()));
                 if let Some((a, b)) = &mem_patch {
                     if *a >= page && a + b.len() as u64 <= page + len {
